@@ -7,6 +7,10 @@ def T(qcases, tcases, qbudget=240, tbudget=1500, workers=16):
             "thorough": dict(cases=tcases, budget_s=tbudget, workers=workers)}
 
 PROPS = {
+    "C13": dict(sources=["props/C13.cpp"], jls=True, tiers=T(400, 5000),
+                assumptions=["strings are NUL-terminated byte strings without interior NUL; any other byte value is allowed",
+                             "a definition whose string exceeds the internal 1 MiB string block may be rejected (but must not corrupt anything)",
+                             "user data written with storage type 0 (INVALID) is the writer's own marker and is not returned by the reader"]),
     "C09": dict(sources=["props/C09.cpp"], jls=True, tiers=T(400, 6000),
                 assumptions=["gap fill must read back as NaN (any NaN) for f32/f64 and as 0 for integers",
                              "stored level-1 summaries are observed through summary-aligned jls_rd_fsr_statistics requests (increment = sample_decimate_factor, >= 25 entries); the last requested entry is recomputed from raw samples by the reader and is not judged"]),
@@ -32,6 +36,10 @@ PROPS = {
 HOOK_COMMITS = ["6203c3e4032b5e35344eee56bc8020982a6abdeb"]
 
 MANIFEST_TEXT = {
+    "C13": dict(
+        technique="model-based property testing: generated definition/user-data programs incl. invalid and duplicate ids against a record model; rejected operations must leave the VFS bytes unchanged",
+        level_text="Generated programs mix valid, duplicate, reserved and out-of-range source/signal ids, undefined sources, invalid types, VSR signals, data ops for undefined or wrong-type signals, strings (absent, empty, UTF-8, up to and beyond the 1 MiB string block) and user data (0 bytes .. 3 MiB, tags up to 0xffff, all storage types). Every verdict is compared with the model, rejected ops are checked byte-for-byte against the file, and the reader's enumeration (id order incl. reserved 0/0, strings, type, rate, decimation factors, user data order/tag/type/size/bytes, stop request) against the record model.",
+        level_note="Trusted: the record model. Stored block parameters are only checked for consistency here (C16 decides the normalisation)."),
     "C09": dict(
         technique="model-based property testing: generated gap/overlap write scripts against a model with fill (NaN/0) and keep-first rules; stored summaries observed through aligned statistics requests",
         level_text="Scripts over all 15 data types mixing contiguous writes, gaps (1 sample .. several internal fill buffers) and overlaps (partial/total, every sub-byte phase) placed around block edges; length, every sample (gap samples NaN/0, others bit-exact, overlapping data deliberately different from the stored one) and level-1 summaries of float windows containing gap samples are compared with the model.",
